@@ -15,6 +15,7 @@ import (
 	"github.com/elementsproject/peerswap/version"
 	"pgregory.net/rapid"
 
+	"verifharness/pbt"
 	"verifharness/stats"
 )
 
@@ -49,9 +50,14 @@ func (f *fakeBitcoind) Ping() (bool, error) { return true, nil }
 
 var digitsRe = regexp.MustCompile(`[0-9]+`)
 
-func TestC30FeeFloor(t *testing.T) {
+func TestC30FeeFloor(t *testing.T) { propC30FeeFloor(t) }
+
+// FuzzC30FeeFloor drives the same property body with Go's coverage-guided fuzzer (thorough tier).
+func FuzzC30FeeFloor(f *testing.F) { propC30FeeFloor(f) }
+
+func propC30FeeFloor(t testing.TB) {
 	col := stats.Get("C30.fee")
-	rapid.Check(t, func(t *rapid.T) {
+	pbt.Run(t, func(t *rapid.T) {
 		// the floor comes from the connected node's version string
 		ver := rapid.OneOf(
 			rapid.SampledFrom([]string{"/Satoshi:29.2.0/", "/Satoshi:29.1.0/", "/Satoshi:30.0.0/", "/Satoshi:28.9.9/", "/Satoshi:29.2/", "v29.1", "29", "garbage", "", "/Satoshi:0.21.1/", "/Satoshi:29.10.0/", "/Satoshi:129.0.0/"}),
@@ -207,9 +213,14 @@ func genVersion(t *rapid.T, label string) string {
 	).Draw(t, label)
 }
 
-func TestC30VersionOrder(t *testing.T) {
+func TestC30VersionOrder(t *testing.T) { propC30VersionOrder(t) }
+
+// FuzzC30VersionOrder drives the same property body with Go's coverage-guided fuzzer (thorough tier).
+func FuzzC30VersionOrder(f *testing.F) { propC30VersionOrder(f) }
+
+func propC30VersionOrder(t testing.TB) {
 	col := stats.Get("C30.version")
-	rapid.Check(t, func(t *rapid.T) {
+	pbt.Run(t, func(t *rapid.T) {
 		a, b, c := genVersion(t, "a"), genVersion(t, "b"), genVersion(t, "c")
 		ge := func(x, y string) bool {
 			r, err := version.CompareVersionStrings(x, y)
